@@ -10,8 +10,8 @@ library's output (validity, KIP-54 balance).
 """
 import itertools
 
-from checks.assign_common import (enc_output, enc_parts, load_assignors, run_assignor,
-                                  small_space)
+from checks.assign_common import (ORACLE_LOG, enc_output, enc_parts, install_oracle_recorder,
+                                  load_assignors, run_assignor, small_space, sticky_line)
 
 KNOWN_STICKY_INTERNAL = "sticky-keyerror-topic-not-in-cluster-topics"
 
@@ -59,7 +59,9 @@ def run(ctx):
         "T-diff harness (harness/checks/c14.py, assign_common.py), line protocol driver",
         "ClusterMetadata replaced by a stub returning Python sets (any iteration order is legitimate); "
         "topic/member names zero-padded so that string order = numeric order",
-        "sticky assignor: NOT modelled; only the Lean statement is evaluated on its output (partial)",
+        "sticky assignor: Lean port (Model/StickyAlg.lean, single-generation user data) tied by T-diff incl. the recorded "
+        "set-iteration choice; validity/balance of its result are NOT proved for all inputs, the Lean statement is evaluated "
+        "on every explored output (partial)",
     ]
     ctx.assumptions += ["member ids distinct, each subscription without duplicates, partition sets without duplicates "
                         "(they are dict keys / sets in the real coordinator)"]
@@ -67,6 +69,7 @@ def run(ctx):
     import logging
     logging.disable(logging.WARNING)
     A = load_assignors(ctx.repo)
+    install_oracle_recorder(A)
     if ctx.replay_cases is not None:
         cases = [(c["parts"], c["members"]) for c in ctx.replay_cases]
         cases = [([(t, ps) for t, ps in p], [(m, s) for m, s in ms]) for p, ms in cases]
@@ -80,6 +83,7 @@ def run(ctx):
         for kind in ("range", "rr", "sticky"):
             if hangs.get(kind, 0) >= 2:
                 continue  # already reported as non-terminating; do not wait for more of them
+            ORACLE_LOG.clear()
             try:
                 out = enc_output(run_assignor(A, kind, parts, members, limit_s=3.0))
             except Exception as e:  # noqa
@@ -89,6 +93,14 @@ def run(ctx):
             if kind == "sticky":
                 lines.append(f"c14 holds sticky {P} {M} {out}")
                 impl.append("true")
+                meta.append({"kind": kind, "parts": parts, "members": members, "out": out})
+                contiguous = all(ps == list(range(len(ps))) for _, ps in parts)
+                if contiguous and not out.startswith("raise:"):
+                    # T-diff with the Lean port of StickyAssignmentExecutor (fresh assignment)
+                    lines.append(sticky_line(parts, members, None))
+                    impl.append(out)
+                    meta.append({"kind": "sticky-port", "parts": parts, "members": members, "out": out})
+                continue
             else:
                 lines.append(f"c14 {kind} {P} {M}")
                 impl.append(out)
@@ -119,6 +131,8 @@ def run(ctx):
             ctx.violation(sig, f"sticky assignor output violates {verdict} on {lines[i][15:200]}",
                           {"cases": [{"parts": m["parts"], "members": m["members"]}], "observed": m["out"],
                            "lean_statement": verdict})
+            continue
+        if m["kind"] == "sticky-port":
             continue
         if m["out"].startswith("raise:"):
             ctx.violation(f"{m['kind']}-raises:{m['out'][6:]}", f"{m['kind']} assignor raises {m['out']}",
